@@ -148,7 +148,7 @@ class BuiltinMixin:
                         not any(_has_var_free(a, i) for a in e.children() if a.get_id() != i.get_id()):
                     found[e.get_id()] = e
                 stack.extend(e.children())
-        return list(found.values())[:3]
+        return [e for e in found.values() if _pattern_ok(e)][:3]
 
     def b_all(self, st, args, kw, node):
         return self._quantify_gen(st, args[0], node, True)
@@ -450,6 +450,24 @@ class BuiltinMixin:
 
 def _sortname(s):
     return str(s).replace("(", "_").replace(")", "").replace(" ", "").replace(",", "_")
+
+
+def _pattern_ok(e):
+    bad = (z3.Z3_OP_ITE, z3.Z3_OP_AND, z3.Z3_OP_OR, z3.Z3_OP_NOT, z3.Z3_OP_IMPLIES, z3.Z3_OP_EQ, z3.Z3_OP_LE, z3.Z3_OP_LT,
+           z3.Z3_OP_GE, z3.Z3_OP_GT)
+    stack, seen = [e], set()
+    while stack:
+        x = stack.pop()
+        if x.get_id() in seen:
+            continue
+        seen.add(x.get_id())
+        if z3.is_quantifier(x):
+            return False
+        if z3.is_app(x):
+            if x.decl().kind() in bad:
+                return False
+            stack.extend(x.children())
+    return True
 
 
 def _has_var_free(e, i):
